@@ -61,6 +61,9 @@ def gen_case(rng, tier, k):
     st = rng.choice(STRATS)
     if (st.startswith("scc") or st.startswith("block")) and rng.random() < 0.5:
         bnet = common.g_modulated(rng, focus=rng.random() < 0.4)
+    if st.startswith("block") and rng.random() < 0.3:
+        # independent modules with downstream latches: several source blocks per node, some nested in others
+        bnet = common.g_union(rng, nmax=nmax + 1, nested=True)
     prefix = []
     if st in ("bfs", "dfs", "min", "aseeds") and rng.random() < 0.5:
         prefix = gen_ops(rng, rng.randint(1, 4), allow_skip=False, allow_unmodelled=False)
